@@ -198,7 +198,7 @@ PROPS = {
                     "program has a disequality.",
             "nontrivial": lambda c: bool({"neq"} & vlib.goal_tags(c)),
             "assumptions": ["TLC, Json/IOUtils, harness projectors"]},
-    "C22": {"plan": plan_c22, "reasons": R_HOOKS,
+    "C22": {"plan": plan_c22, "reasons": R_HOOKS | {"user_trail_differs"},
             "rule": "MC_Tree scope step by step on State and as queries (probe after reification), random programs and "
                     "store sequences with an instrumented User type.  Non-trivial: contains a disequality.",
             "nontrivial": lambda c: bool({"neq", "disunify"} & vlib.goal_tags(c)),
@@ -503,13 +503,13 @@ PROPS.update({
             "nontrivial": lambda c: bool({"conda", "condu", "onceo"} & vlib.goal_tags(c)),
             "assumptions": SEARCH_ASSUME + ["'first answer in engine order' of a condu/onceo head is taken from the engine "
                                             "model of Search.tla (checked to be an answer of the head)"]},
-    "C10": {"plan": plan_c10, "reasons": R_ANSWERS | {"group_union_differs"},
+    "C10": {"plan": plan_c10, "reasons": R_ANSWERS | {"group_union_differs", "user_trail_differs"},
             "rule": "random prefix / branch A / branch B / suffix from bindings, disequalities, user-trail leaves, library "
                     "relations and project; conde{A,B}, A alone, B alone (multiset union judged implementation against "
                     "implementation) and conde{B,A}, each also against the reference.",
             "nontrivial": lambda c: "conde" in vlib.goal_tags(c),
             "assumptions": SEARCH_ASSUME},
-    "C11": {"plan": plan_c11, "reasons": R_ANSWERS | {"panic"},
+    "C11": {"plan": plan_c11, "reasons": R_ANSWERS | {"panic", "user_trail_differs"},
             "rule": "1-4 states (member / conde / loop) reach a project goal whose body uses the projected value "
                     "non-relationally (show, isnum) in one or two goals.  Non-trivial: more than one state reaches it.",
             "nontrivial": lambda c: True,
